@@ -62,7 +62,11 @@ def check(run):
         giro = (b"\x00\x05", bytes.fromhex("a0000003591010028001"))
         maestro = (b"\x00\x2e", bytes.fromhex("a0000000043060"))
         for on_card, subs in (([giro, maestro], []), ([maestro], []), ([(b"\x00\x05", None), maestro], []), ([giro], [(b"\x00\x05", None)]),
-                              ([(None, None), giro], [])):
+                              ([(None, None), giro], []),
+                              # both places at once: the two lists COMPLEMENT each other (an id in either one => bank card), also when the
+                              # container under 0x62 is present but empty or names no application
+                              ([], [giro]), ([(b"\x00\x05", None)], [giro]), ([(None, None)], [maestro, (None, None)]), ([giro], [maestro]),
+                              ([], [(None, None), maestro])):
             for uid in (None, "00000000000008b3c880", "04a1b2c3d4e5f6"):
                 scenario(pre + [S.status_info({0x27: 0, 0x06: {"uuid": uid, "subs": subs, "on_card": on_card}})], "Ok:Bank")
     # all abort codes: time-out = no card, any other abort an error
